@@ -1347,7 +1347,15 @@ func (r *Run) Witness(id string, p Pred) (bool, map[string]string) {
 	o := r.ob(id, "witness")
 	o.Paths++
 	if r.concrete {
-		return p.eval(nil, r.q), nil
+		// replay / differential run: an existential obligation cannot be refuted by one assignment in
+		// general, but a predicate that is false under a generic concrete assignment reproduces the
+		// "no witness exists" verdict of the symbolic run (the chance of a false negative for a
+		// satisfiable predicate is of the order 1/q)
+		ok := p.eval(nil, r.q)
+		if !ok {
+			worse(o, StViolated, "no witness under the concrete assignment", nil)
+		}
+		return ok, nil
 	}
 	p = r.norm(p)
 	o.Queries++
